@@ -58,9 +58,12 @@ def parseStrNul (rest : Bytes) : Except PErr (Bytes × Nat) :=
     if isAscii (rest.take len) then .ok (rest.take len, len + 1) else .error .invalidValue
 
 /-- `compose_string_null_terminated(value, 'ascii')`: a character outside ASCII is `InvalidValue`;
-an embedded NUL is NOT rejected. -/
+so is an embedded NUL (repaired: it used to be written as it was, and the field was read back
+truncated). -/
 def composeStrNul (v : Bytes) : Except PErr Bytes :=
-  if isAscii v then .ok (v ++ [0]) else .error .invalidValue
+  if !isAscii v then .error .invalidValue
+  else if v.contains 0 then .error .invalidValue
+  else .ok (v ++ [0])
 
 /-- `parse_numeric(name, k, IntEnumClass)`: the converter's `ValueError` is `InvalidValue` -/
 def parseNumConv (bo : ByteOrder) (k : Nat) (members : List Nat) (rest : Bytes) : Except PErr (Nat × Nat) := do
@@ -276,9 +279,9 @@ structure Cotp where
   userData : Bytes
 deriving Repr, DecidableEq
 
-/-- `COTPConnectionBase._parse` called on class `want`.  Whatever `want` is, the object built at
-the end is a `COTPConnectionRequest` — as in the code. `__attrs_post_init__` rejects a non-zero
-class option with `InvalidValue`. -/
+/-- `COTPConnectionBase._parse` called on class `want`; the object is built with `cls(...)`
+(repaired: it used to be a `COTPConnectionRequest` whatever the class). `__attrs_post_init__`
+rejects a non-zero class option with `InvalidValue`. -/
 def parseCotp (want : CotpClass) (bs : Bytes) : Except PErr (Cotp × Nat) :=
   if bs.length < COTPConnectionBase_HEADER_SIZE then
     .error (.notEnough ((COTPConnectionBase_HEADER_SIZE - bs.length : Nat) : Int))
@@ -300,7 +303,7 @@ def parseCotp (want : CotpClass) (bs : Bytes) : Except PErr (Cotp × Nat) :=
         let p := n1 + n2 + n3 + n4 + n5
         let (ud, n6) ← parseRaw ((li : Int) - (p : Int) + 1) r5
         if co != 0 then .error .invalidValue
-        else pure (⟨.request, src, dst, co, ud⟩, p + n6)
+        else pure (⟨want, src, dst, co, ud⟩, p + n6)
 
 /-- `COTPConnectionBase.compose` (the type code comes from the object's own class) -/
 def composeCotp (c : Cotp) : Except PErr Bytes := do
